@@ -21,7 +21,8 @@ Seeds == { <<38, 97, 109, 112, 59>>, <<38, 35, 51, 57, 59>>, <<38, 108, 116, 59,
            <<60, 115, 99, 114, 105, 112, 116, 62>>, <<97, 32, 60, 32, 98, 32, 38, 38, 32, 99>> }
 
 Positions == {"print", "afterfilter", "beforefilter", "apply", "macro", "include", "ifcond", "set", "concat",
-              "afterraw", "afterrawtrim", "twice", "twicetrim", "applytwice", "settwice", "mixed"}
+              "afterraw", "afterrawtrim", "twice", "twicetrim", "applytwice", "settwice", "mixed",
+              "nestedchain", "nestedarg", "nestedboth", "sandboxdefault", "foreign", "forseq"}
 OtherName(f) == IF f = "e" THEN "escape" ELSE "e"
 
 \* program for filter name f applied to variable s in position pos; pre/post are the
@@ -45,6 +46,15 @@ Prog(pos, f) ==
       [] pos = "mixed"        -> ("main" :> <<Text(<<91>>), PrintS(Filt(OtherName(f), Filt(f, Var("s"), <<>>), <<>>)), Text(<<93>>)>>)
       [] pos = "applytwice"   -> ("main" :> <<Text(<<91>>), Apply(f, <<>>, <<PrintS(Filt(f, Var("s"), <<>>))>>), Text(<<93>>)>>)
       [] pos = "settwice"     -> ("main" :> <<Set("z", Filt(f, Var("s"), <<>>)), Text(<<91>>), PrintS(Filt(f, Var("z"), <<>>)), Text(<<93>>)>>)
+      \* a chain of filters whose subject, or whose argument, is itself a chain of filters
+      [] pos = "nestedchain"  -> ("main" :> <<Text(<<91>>), PrintS(Filt(f, Filt("trim", Bin("~", Filt("trim", Filt("trim", Var("s"), <<>>), <<>>), LS(<<>>)), <<>>), <<>>)), Text(<<93>>)>>)
+      [] pos = "nestedarg"    -> ("main" :> <<Text(<<91>>), PrintS(Filt(f, Filt("default", Var("nosuchvar"), <<Filt("trim", Filt("trim", Var("s"), <<>>), <<>>)>>), <<>>)), Text(<<93>>)>>)
+      [] pos = "nestedboth"   -> ("main" :> <<Text(<<91>>), PrintS(Filt(f, Filt("trim", Filt("default", Filt("trim", Filt("trim", LS(<<>>), <<>>), <<>>),
+                                                                                          <<Filt(f, Filt("trim", Filt("raw", Var("s"), <<>>), <<>>), <<>>)>>), <<>>), <<>>)), Text(<<93>>)>>)
+      \* inside a sandboxed include under the policy the engine provides by default; other engines of the process redefine the names
+      [] pos = "sandboxdefault" -> ("main" :> <<Text(<<91>>), Include(LS(NT.t1), Lit(Null), FALSE, FALSE, FALSE, TRUE), Text(<<93>>)>>) @@ ("t1" :> <<PrintS(Filt(f, Var("s"), <<>>))>>)
+      [] pos = "foreign"      -> ("main" :> <<Text(<<91>>), PrintS(Filt(f, Var("s"), <<>>)), Text(<<93>>)>>)
+      [] pos = "forseq"       -> ("main" :> <<Text(<<91>>), For1("i", Arr(<<Var("s")>>), <<PrintS(Filt(f, Var("i"), <<>>))>>), Text(<<93>>)>>)
       [] pos = "concat"       -> ("main" :> <<Text(<<91>>), PrintS(Bin("~", Filt(f, Var("s"), <<>>), LS(<<122>>))), Text(<<93>>)>>)
 Pre(pos)  == IF pos = "macro" THEN <<91, 60>> ELSE <<91>>
 Post(pos) == CASE pos = "macro" -> <<62, 93>> [] pos = "concat" -> <<122, 93>> [] OTHER -> <<93>>
@@ -59,16 +69,20 @@ Values == {VS(s) : s \in Strs(MaxLen) \cup Seeds} \cup {VI(5), VI(-3), Null} \cu
 PrintOnly == {VS(s) : s \in Strs(MaxLenPrint) \ Strs(MaxLen)}
 Cases == {[pos |-> p, v |-> v] : p \in Positions, v \in Values} \cup {[pos |-> "print", v |-> v] : v \in PrintOnly}
 
-Ref(c, f) == Render(MkW(Prog(c.pos, f), {}, {}, NoFault), "main", ("s" :> c.v))
+\* (the policy the engine provides by default allows escape -- so the documentation -- and hence its alias)
+Ref(c, f) == Render(MkW(Prog(c.pos, f), {"escape", "e"}, {}, NoFault), "main", ("s" :> c.v))
 
+RunOpts(pos) == CASE pos = "sandboxdefault" -> [defaultpolicy |-> TRUE]
+                  [] pos = "foreign" -> [foreign |-> {"e", "escape", "trim", "raw"}]
+                  [] OTHER -> EmptyFn
 CaseOf(c) ==
     [prop |-> "C07", key |-> ToJson(c),
      tags |-> {"pos:" \o c.pos, "vt:" \o c.v.t},
      entry |-> "main", ctx |-> ("s" :> c.v), rel |-> "same",
      aux |-> [in |-> InText(c.pos, c.v), pre |-> Pre(c.pos), post |-> Post(c.pos), isd |-> WholeIsD(c.pos, c.v),
-              twice |-> c.pos \in {"twice", "twicetrim", "applytwice", "settwice", "mixed"}],
-     runs |-> <<[label |-> "escape", tp |-> Sources(Prog(c.pos, "escape"), LMin), xcalls |-> [id \in {} |-> 0]],
-                [label |-> "e", tp |-> Sources(Prog(c.pos, "e"), LMin), xcalls |-> [id \in {} |-> 0]]>>,
+              twice |-> c.pos \in {"twice", "twicetrim", "applytwice", "settwice", "mixed", "nestedboth"}],
+     runs |-> <<[label |-> "escape", tp |-> Sources(Prog(c.pos, "escape"), LMin), xcalls |-> [id \in {} |-> 0]] @@ RunOpts(c.pos),
+                [label |-> "e", tp |-> Sources(Prog(c.pos, "e"), LMin), xcalls |-> [id \in {} |-> 0]] @@ RunOpts(c.pos)>>,
      \* the exact spelling of a reference is not fixed by the property: the output is judged by Trace_C07
      expect |-> [ok |-> TRUE, out |-> <<>>, noout |-> TRUE, err |-> "", calls |-> [id \in {} |-> 0]]]
 
